@@ -18,7 +18,8 @@ Inductive ltree :=
 Inductive ltop :=
 | LChain (ns : list ltree)                                    (* one statement or one if/try chain at column 0 *)
 | LMain (pre : list text) (h tr : text) (body : list ltree)   (* the column-0 `while True:` *)
-| LDef (pre : list text) (h tr : text) (body : list ltree).
+| LDef (pre : list text) (h tr : text) (body : list ltree)
+| LImp (pre : list text) (s tr : text).                       (* a column-0 import line that parse() filters itself *)
 
 Fixpoint lerase (n : ltree) : stree :=
   match n with
@@ -26,12 +27,14 @@ Fixpoint lerase (n : ltree) : stree :=
   | LBlock _ k h _ body => SBlock k h (map lerase body)
   end.
 
-Definition lerase_top (t : ltop) : sitem :=
+Definition lerase_top (t : ltop) : list sitem :=
   match t with
-  | LChain ns => SSetup (map lerase ns)
-  | LMain _ _ _ body => SLoop (map lerase body)
-  | LDef _ h _ body => SDef h (map lerase body)
+  | LChain ns => [SSetup (map lerase ns)]
+  | LMain _ _ _ body => [SLoop (map lerase body)]
+  | LDef _ h _ body => [SDef h (map lerase body)]
+  | LImp _ _ _ => []
   end.
+Definition lerase_tops (ts : list ltop) : list sitem := flat_map lerase_top ts.
 
 (* ---------------------------------------------------------------- rendering *)
 Section Render.
@@ -49,6 +52,7 @@ Section Render.
     | LChain ns => render_list O ns
     | LMain pre h tr body => pre ++ (ind O ++ h ++ tr) :: render_list 1%nat body
     | LDef pre h tr body => pre ++ (ind O ++ h ++ tr) :: render_list 1%nat body
+    | LImp pre s tr => pre ++ [ind O ++ s ++ tr]
     end.
   Definition render_top (ts : list ltop) (final_junk : list text) : list text :=
     flat_map render_top1 ts ++ final_junk.
@@ -166,6 +170,40 @@ Section Guard.
     | m :: r => wf_tree top d m && accepts_node c m && wf_seq top d (after_node m) r
     end.
 End Guard.
+
+(* ---------------------------------------------------------------- the guard at column 0 of the script *)
+(* one LChain = exactly one top-level statement: a simple statement, a while, a for, an
+   if/elif/else chain or a try/except chain *)
+Definition is_block_of (ks : list hkind) (n : ltree) : bool :=
+  match n with
+  | LBlock _ k _ _ _ => existsb (fun k' => Z.eqb (match k with KIf => 0 | KElif => 1 | KElse => 2 | KTry => 3 | KExcept => 4 | KWhile => 5 | KFor => 6 end)
+                                                 (match k' with KIf => 0 | KElif => 1 | KElse => 2 | KTry => 3 | KExcept => 4 | KWhile => 5 | KFor => 6 end)) ks
+  | LLeaf _ _ _ => false
+  end.
+Definition chain_ok (ns : list ltree) : bool :=
+  match ns with
+  | [LLeaf _ s _] => negb (top_import s) && negb (re_def s)
+  | [LBlock _ KWhile h _ _] => negb (re_while_true h)
+  | [LBlock _ KFor _ _ _] => true
+  | LBlock _ KIf _ _ _ :: r => forallb (is_block_of [KElif; KElse]) r
+  | LBlock _ KTry _ _ _ :: r => forallb (is_block_of [KExcept]) r
+  | _ => false
+  end.
+
+Definition wf_top (ind : nat -> text) (t : ltop) : bool :=
+  match t with
+  | LChain ns => chain_ok ns && wf_seq ind true O CNone ns
+  | LMain pre h tr body =>
+      forallb (junk_ok None) pre && stmt_ok h && re_while_true h && is_blank tr && wf_seq ind false 1%nat CNone body
+  | LDef pre h tr body =>
+      forallb (junk_ok None) pre && stmt_ok h && re_def h && is_blank tr && wf_seq ind false 1%nat CNone body
+  | LImp pre s tr =>
+      forallb (junk_ok None) pre && stmt_ok s && top_import s && is_blank tr
+  end.
+
+(* the guard of a whole script *)
+Definition top_layout_ok (u : text) (ts : list ltop) (final_junk : list text) : bool :=
+  unit_ok u && forallb (wf_top (ind_unit u)) ts && forallb junk final_junk.
 
 (* the nested guard for a snippet handed to _parse_simple_lines *)
 Definition layout_ok (u : text) (ns : list ltree) : bool :=
